@@ -2749,10 +2749,21 @@ impl<'a> CodeGenerator<'a> {
                     },
                 );
 
+                // A list of n elements belongs to the longest pattern with a tail that
+                // still fits, whatever order the clauses were written in. So we look
+                // tail cases up from longest to shortest.
+                let tail_cases = tail_cases
+                    .into_iter()
+                    .sorted_by_key(|(case, _)| match case {
+                        CaseTest::ListWithTail(i) => std::cmp::Reverse(*i),
+                        _ => unreachable!(),
+                    })
+                    .collect_vec();
+
                 let last_pattern = if tail_cases.is_empty() {
                     *default.as_ref().unwrap().clone()
                 } else {
-                    let tree = tail_cases.last().unwrap();
+                    let tree = tail_cases.first().unwrap();
 
                     tree.1.clone()
                 };
